@@ -40,7 +40,7 @@ func fieldIdxByName(nt *types.Named, name string) int {
 			return i
 		}
 	}
-	return -1
+	return fieldByHint(nt, name) // renamed: the field that has the type this one had (fieldhints.go)
 }
 
 // loadOfField: v is a load of field idx of a value of named type nt.
